@@ -11,7 +11,7 @@
 #include "transcript.h"
 #include "private/ed25519_ref10.h"
 #include "crypto_hash_sha512.h"
-struct vin_t { unsigned long long mlen; unsigned char sk[64], seed[32], d[4][64], renc[32], s_out[32]; int prehashed, lenp_null; unsigned char ov[2 * 96 + 80 + 64 + 8]; };
+struct vin_t { unsigned long long mlen; unsigned char sk[64], seed[32], d[4][64], renc[32], s_out[32]; int prehashed, lenp_null; unsigned char ov[2 * 96 + 80 + 64 + 8]; uint64_t px[5], py[5], pt[5], inv[5], prod[5]; int r_dec, r_so, r_ms; unsigned char pk[32], out0[32]; };
 struct vin_t nondet_vin(void);
 struct vin_t vin;
 VMISUSE_DEFINE
@@ -30,11 +30,28 @@ void ge25519_scalarmult_base(ge25519_p3 *h, const unsigned char *a) { struct ev 
 void ge25519_p3_tobytes(unsigned char *s, const ge25519_p3 *h) { struct ev *e = pe(E_TOB); (void) h; e->p = s; memcpy(s, vin.renc, 32); }
 void sc25519_muladd(unsigned char s[32], const unsigned char a[32], const unsigned char b[32], const unsigned char c[32]) { struct ev *e = pe(E_MULADD); e->p = s; memcpy(ma_a, a, 32); memcpy(ma_b, b, 32); memcpy(ma_c, c, 32); memcpy(s, vin.s_out, 32); }
 void randombytes_buf(void *const buf, const size_t size) { struct ev *e = pe(E_RAND); e->p = buf; e->len = size; v_out(buf, size); }
+#if defined(VNATIVE) || !defined(VPK2CURVE)
 int ge25519_frombytes_negate_vartime(ge25519_p3 *h, const unsigned char *s) { (void) h; (void) s; return 0; }
 int ge25519_has_small_order(const ge25519_p3 *p) { (void) p; return 0; }
 int ge25519_is_on_main_subgroup(const ge25519_p3 *p) { (void) p; return 1; }
 void fe25519_invert(fe25519 out, const fe25519 z) { (void) out; (void) z; }
 void fe25519_tobytes(unsigned char *s, const fe25519 h) { (void) h; (void) s; }
+#else
+/* ---- crypto_sign_ed25519_pk_to_curve25519 (hf_pk_to_curve): point decoding and the two order tests are assumed callees
+ * with arbitrary verdicts, inversion / multiplication / encoding are assumed callees with arbitrary results whose OPERANDS
+ * are recorded as integers; fe25519_1 / add / sub are the real fe_51 code (decided against integers in c05.f.fe_linear / fe_sub) */
+typedef unsigned __CPROVER_bitvector[330] big;
+static big val_(const fe25519 f) { return (big) f[0] + ((big) f[1] << 51) + ((big) f[2] << 102) + ((big) f[3] << 153) + ((big) f[4] << 204); }
+static int small_multiple_(big x, big y, int lo, int hi) { big P = ((big) 1 << 255) - 19, m = P * lo; int k, ok = 0; for (k = lo; k <= hi; k++) { if (x == y + m) ok = 1; m += P; } return ok; }
+static int n_dec, n_so, n_ms, n_inv, n_mul, n_enc; static const void *dec_src, *dec_dst, *so_arg, *ms_arg, *enc_dst; static big inv_in, mul_f, mul_g, enc_in;
+int ge25519_frombytes_negate_vartime(ge25519_p3 *h, const unsigned char *s)
+{ int i; n_dec++; dec_src = s; dec_dst = h; for (i = 0; i < 5; i++) { h->X[i] = vin.px[i]; h->Y[i] = vin.py[i]; h->T[i] = vin.pt[i]; h->Z[i] = (i == 0); } return vin.r_dec; }
+int ge25519_has_small_order(const ge25519_p3 *p) { n_so++; so_arg = p; return vin.r_so; }
+int ge25519_is_on_main_subgroup(const ge25519_p3 *p) { n_ms++; ms_arg = p; return vin.r_ms; }
+void fe25519_invert(fe25519 out, const fe25519 z) { int i; n_inv++; inv_in = val_(z); for (i = 0; i < 5; i++) out[i] = vin.inv[i]; }
+void s_fe_mul(fe25519 h, const fe25519 f, const fe25519 g) { int i; n_mul++; mul_f = val_(f); mul_g = val_(g); for (i = 0; i < 5; i++) h[i] = vin.prod[i]; }
+void fe25519_tobytes(unsigned char *s, const fe25519 h) { n_enc++; enc_dst = s; enc_in = val_(h); memcpy(s, vin.renc, 32); }
+#endif
 #include "crypto_sign/ed25519/ref10/sign.c"
 #include "crypto_sign/ed25519/ref10/keypair.c"
 
@@ -90,6 +107,32 @@ void hf_sk_to_curve(void)
     VASSERT("Ed25519 secret key -> X25519 secret key: clamp(SHA-512(seed)[0..32)), the same scalar key generation multiplies the base point with", lg[0].op == E_HONE && lg[0].len == 32 && v_eq(hone_in, vin.sk, 32) && v_eq(out, a, 32) && ln == 1);
     VREACH("hf_sk_to_curve");
 }
+#if !defined(VNATIVE) && defined(VPK2CURVE)
+void hf_pk_to_curve(void)
+{
+    VIN_GET();
+    unsigned char out[32]; int i, r, ok; big Y, I, M;
+    for (i = 0; i < 5; i++) VASSUME(vin.py[i] < (1ULL << 51) && vin.inv[i] < (1ULL << 52) && vin.prod[i] < (1ULL << 52));   /* what frombytes / invert / mul return */
+    memcpy(out, vin.out0, 32);
+    Y = (big) vin.py[0] + ((big) vin.py[1] << 51) + ((big) vin.py[2] << 102) + ((big) vin.py[3] << 153) + ((big) vin.py[4] << 204);
+    I = (big) vin.inv[0] + ((big) vin.inv[1] << 51) + ((big) vin.inv[2] << 102) + ((big) vin.inv[3] << 153) + ((big) vin.inv[4] << 204);
+    M = (big) vin.prod[0] + ((big) vin.prod[1] << 51) + ((big) vin.prod[2] << 102) + ((big) vin.prod[3] << 153) + ((big) vin.prod[4] << 204);
+    r = crypto_sign_ed25519_pk_to_curve25519(out, vin.pk);
+    ok = (vin.r_dec == 0 && vin.r_so == 0 && vin.r_ms != 0);
+    VASSERT("the supplied key is decoded, once", n_dec == 1 && dec_src == (const void *) vin.pk);
+    VASSERT("accepted exactly when the point decodes, is not of small order and lies in the main subgroup; otherwise -1", (r == 0) == ok && (r == 0 || r == -1));
+    if (vin.r_dec == 0) VASSERT("the small-order test is applied to the decoded point", n_so == 1 && so_arg == dec_dst);
+    if (vin.r_dec == 0 && vin.r_so == 0) VASSERT("the main-subgroup test is applied to the decoded point", n_ms == 1 && ms_arg == dec_dst);
+    if (!ok) VASSERT("a rejected key writes nothing to the output", v_eq(out, vin.out0, 32) && n_enc == 0);
+    if (ok) {
+        VASSERT("one inversion, of 1 - y modulo p", n_inv == 1 && small_multiple_(inv_in + Y, 1, 0, 20));
+        VASSERT("one multiplication: (1 + y) * (1 - y)^-1 modulo p (RFC 7748 birational map u = (1+y)/(1-y))", n_mul == 1 &&
+                ((small_multiple_(mul_f, 1 + Y, 0, 4) && mul_g == I) || (small_multiple_(mul_g, 1 + Y, 0, 4) && mul_f == I)));
+        VASSERT("the product is encoded into the caller's buffer", n_enc == 1 && enc_dst == (const void *) out && enc_in == M && v_eq(out, vin.renc, 32));
+    }
+    VREACH("hf_pk_to_curve");
+}
+#endif
 /* ---- combined form crypto_sign_ed25519 with message and output overlapping (C13): m and sm inside one object at a
  * constant relative offset VDELTA = sm - m; the detached signer is replaced (goto-instrument --replace-calls). ---- */
 #ifndef VDELTA
